@@ -17,11 +17,12 @@ Definition nbrs (g : graph) (v : Z) : list Z := filter (adjb g v) (nodes g).
 (** * triangles *)
 Definition tri_pairs (g : graph) (v : Z) : list (Z * Z) :=
   let N := nbrs g v in
-  filter (fun ab => (fst ab <? snd ab) && adjb g (fst ab) (snd ab)) (list_prod N N).
+  filter (fun ab => if fst ab <? snd ab then adjb g (fst ab) (snd ab) else false) (list_prod N N).
 Definition tri_count (g : graph) (v : Z) : Z := Z.of_nat (length (tri_pairs g v)).
 Definition tri_triples (g : graph) : list (Z * Z * Z) :=
-  filter (fun t => (fst (fst t) <? snd (fst t)) && (snd (fst t) <? snd t)
-                   && adjb g (fst (fst t)) (snd (fst t)) && adjb g (snd (fst t)) (snd t) && adjb g (fst (fst t)) (snd t))
+  filter (fun t => if fst (fst t) <? snd (fst t) then if snd (fst t) <? snd t then
+                     if adjb g (fst (fst t)) (snd (fst t)) then if adjb g (snd (fst t)) (snd t) then adjb g (fst (fst t)) (snd t)
+                     else false else false else false else false)
          (list_prod (list_prod (nodes g) (nodes g)) (nodes g)).
 Definition tri_total (g : graph) : Z := Z.of_nat (length (tri_triples g)).
 (** [tc]: per-node counts as returned by triangle_count(); [total]: total_triangles() *)
@@ -66,7 +67,7 @@ Definition in_core (tbl : list (Z * option (list Z))) (k v : Z) : option bool :=
   end.
 (** [c]: core numbers as returned by kcore_decomposition(); [maxc]: its max_core *)
 Definition kcore_cert (g : graph) (c : list (Z * Z)) (maxc : Z) : bool :=
-  let ks := map Z.of_nat (seq 0 (length (nodes g) + 3)) in
+  let ks := nodupZ (flat_map (fun kv => [snd kv; snd kv + 1]) c) in
   let tbl := map (fun k => (k, kcore_of g k)) ks in
   wfb g && forallb (fun kv => memb (fst kv) (nodes g)) c
   && forallb (fun v => match lookup c v with
